@@ -725,6 +725,9 @@ def evaluate_smt_formula(
             )
         except DomainError:
             return Some(ThreeValuedTruth.false())
+        except ZeroDivisionError:
+            # Division by zero is unspecified in SMT-LIB, let Z3 decide.
+            return fallback(None)
 
     def fallback(_) -> Maybe[ThreeValuedTruth]:
         return Some(
